@@ -5,7 +5,7 @@ import random
 
 import numpy as np
 
-from . import common, sas, c01
+from . import common, sas, c01, c11
 from .common import Finding, fhex, flist, cbool
 
 REL_TOL = 1e-11
@@ -133,6 +133,16 @@ def main(run):
                         continue
                     run.add(Finding("C07:error:%s@%s" % (pn, sn), "%s@%s raised %r" % (pn, sn, err), desc))
                     continue
+                # the same kernel object evaluated again after one-field edits (a fit does this thousands of times):
+                # each evaluation must equal the one a kernel of its own gives, which the recombination below ties
+                # to the documented formula
+                if not (beta and dim == "2d"):
+                    seq, badseq = c11.reuse_sequence(model, q, full, 1e-5, rng, info)
+                    evals += len(seq); stats["reuse_evaluations"] = stats.get("reuse_evaluations", 0) + len(seq)
+                    for i, r, g_, f_ in badseq[:1]:
+                        run.add(Finding("C07:reuse:%s@%s" % (pn, sn), "%s@%s: evaluation %d on a reused kernel (after edits %s) returns %s, a fresh kernel %s" % (
+                            pn, sn, i, [x.get("edit") for x in seq[1:i + 1]], np.asarray(g_).tolist() if not isinstance(g_, str) else g_,
+                            np.asarray(f_).tolist() if not isinstance(f_, str) else f_), dict(desc, sequence=seq[:i + 1])))
                 # the parts, evaluated alone through the public API
                 pk = pm.make_kernel(q); sk = sm.make_kernel(q)
                 fq = dict(ppars); fq.update(disp); fq.update(scale=1.0, background=0.0, radius_effective_mode=mode)
